@@ -31,8 +31,9 @@ BITS = [(1, "changed-sample-recorded-twice"), (2, "row-count-differs-from-matchi
 ASSUMPTIONS = [
     "Go's regexp is outside the model: per (line, parser) the harness supplies whether rp.re matches and what rp.re.ReplaceAllString captures for the time-stamp and value groups (same calls as detectSignals); patterns describe whole lines",
     "time.Parse (ts_rfc3339, ts_log layouts) is outside the model: the harness supplies the parsed date minus the epoch, or the failure; for the fixed-width shape the ts_log expansion captures, parse_ts_log models it (2-digit year pivot 69, field ranges, leap years) and is compared with time.Parse on every generated stamp",
-    "strconv.ParseFloat is modelled by parse_decimal (decimal syntax, out-of-range error) and compared with strconv on every captured numeral of every run; hexadecimal floats, underscores, inf/nan are outside the model and not generated",
-    "float64 is modelled by exact rationals / exact nanosecond counts: generated numbers are eighths, time stamps sixteenths of a second (halves beyond 3e8 s), on which the code's float arithmetic is exact; rounding is not modelled; int64 overflow of time.Duration is outside the model",
+    "strconv.ParseFloat is modelled by parse_decimal (decimal and hexadecimal floating-point syntax, out-of-range error) and compared with strconv on every captured numeral of every run; underscores between digits are outside the model and not generated; the spellings of infinity / NaN (accepted by ParseFloat without error) are outside the model (its numbers are rationals) and only occur in the real plays, for scalar signals, where the CSV must show +Inf / -Inf / NaN",
+    "float64 is modelled by exact rationals / exact nanosecond counts: ordinary generated numbers are eighths, time stamps sixteenths of a second (halves beyond 3e8 s), on which the code's float arithmetic is exact, and these are compared for equality as rationals; rounding is not modelled; int64 overflow of time.Duration is outside the model",
+    "edge numerals (1e19, -1e19, 2^63, -(2^63+1), 2^64, 1e300, 1e308, 4.9e-324, 1e-400, a 30-digit integer, -0, hexadecimal floats) are generated for scalar and delta signals: numbers (model vs implementation, CSV value vs the value read from the line) whose magnitude is 2^53 or more are compared within 2^-48 relative, and a difference of at most 2^-1073 (two denormal steps; no two distinct float64 are that close) counts as none - 4.9e-324 is stored as 2^-1074, 1e-400 as 0, 1e300 as the nearest float64",
     "ts_now rows carry the wall clock: the model takes the reception instant from the observed sigEvent; the oracle only requires it inside the [before, after] bracket of the detectSignals call and non-decreasing within a file",
     "the audition is Model/Audit.v (C02's round machine); theorems hold for plays whose audition was not stopped by an auditor's evaluation error (always so for observers only: c08_observers_never_stop_the_play); channel sends never block (large buffers in the hook)",
     "the first delta of a signal is relative to 0 (sink.lastVal's zero value), as the code does; the property's text leaves it undefined",
@@ -260,7 +261,7 @@ def run(tier, seed):
     cases_v, cases, summary = r
     res.coverage.update({
         "evaluations": summary["cases"], "distinct_nontrivial": summary["distinct_nontrivial"],
-        "rule": "generated roles (1-2 roles x 1-4 signals: event/scalar/delta x ts_now/ts_deltasecs/ts_rfc3339/ts_log, expandable empty group or spelled-out \\S+ group, whole-line patterns, value classes \\S+ \\d+ [-+.0-9eE]+ \\w+ rest-of-line, and the everything-is-the-text shape that also matches the empty string), 1-3 actors per role (separate `plays` lines or siblings of one `p* play N role` line), 0-3 observers per signal through `watches <actor>` / `watches every <role>` clauses (+ in 1 of 2 an auditor mentioning a signal of any kind in its expressions, auditing throughout or only while a condition on that signal / the mood / t holds, in half of these as the ONLY watcher of the signal), x 4-25 items (lines of all actors interleaved, blank lines, matching 0/1/several signals, repeated and changing values in many numeral syntaxes, malformed numerals and dates, time going forth/back/equal/far future/before the play start, mood changes, end of play), all through the real detectSignals -> checkEvent -> collectObservation via the hook; non-trivial = distinct (config, items) with >= 3 lines and >= 3 expected rows",
+        "rule": "generated roles (1-2 roles x 1-4 signals: event/scalar/delta x ts_now/ts_deltasecs/ts_rfc3339/ts_log, expandable empty group or spelled-out \\S+ group, whole-line patterns, value classes \\S+ \\d+ [-+.0-9eE]+ \\w+ rest-of-line, and the everything-is-the-text shape that also matches the empty string), 1-3 actors per role (separate `plays` lines or siblings of one `p* play N role` line), 0-3 observers per signal through `watches <actor>` / `watches every <role>` clauses (+ in 1 of 2 an auditor mentioning a signal of any kind in its expressions, auditing throughout or only while a condition on that signal / the mood / t holds, in half of these as the ONLY watcher of the signal), x 4-25 items (lines of all actors interleaved, blank lines, matching 0/1/several signals, repeated and changing values in many numeral syntaxes incl. hexadecimal floats, magnitudes beyond 2^63 up to 1e308, denormals and underflow, malformed numerals and dates, time going forth/back/equal/far future/before the play start, mood changes, end of play), all through the real detectSignals -> checkEvent -> collectObservation via the hook; non-trivial = distinct (config, items) with >= 3 lines and >= 3 expected rows",
         "samples": summary["samples"][:2],
         "distribution": summary["stats"],
         "traces_validated_against_impl": summary["cases"],
